@@ -22,6 +22,25 @@ COQ_FILES = ["Model/Peer.v", "Model/Conn.v", "Proofs/PeerProofs.v", "Proofs/Peer
 BOUND_MS = 1500
 
 
+# Serve stopped by a failing listener: it returns the listener error with every listener it was given closed (function-level
+# driver on real Server objects with two listeners; the registry model says what each call returns)
+import C20
+from common import Case
+OPNAMES = {40: "serve_lifecycle"}
+ORACLES = {}
+PY_ORACLES = {40: C20.py_registry}
+
+
+def cases(rng, tier):
+    a = [1, 1, 5, 65001, 65000, 0, 0, 90, 100179, 1]
+    b = [1, 1, 9, 65001, 65000, 0, 0, 90, 100179, 0]
+    cs = []
+    for ops in ([5, 7, 6], a + [5, 7, 6], a + b + [5, 7, 4, 6], [5, 7, 5, 6], a + [5, 6], a + b + [5, 2, 1, 5, 6], b + [5, 7] + a + [6, 4]):
+        for _ in range(2 if tier == "quick" else 10):
+            cs.append(Case(40, ops, [], "serve-lifecycle"))
+    return cs
+
+
 def shutdown_judge(r, api_names=("close", "delete", "final-close"), steps=()):
     """the property's clauses on the observed history"""
     bad = []
